@@ -7,7 +7,8 @@
    well as what molli writes; C10_written_* instantiate them with the xyz writer model (Gen tables, tie T).
    The correspondence shards (tie H) evaluate exactly these definitions against the implementation. *)
 From Coq Require Import List Bool ZArith NArith String Lia.
-From Molli Require Import Common.ParseStr Common.ParseStrFacts Model.Parse Model.XyzText Proofs.Parse Proofs.XyzText Proofs.ParseRecords.
+From Molli Require Import Common.ParseStr Common.ParseStrFacts Model.Parse Model.XyzText Proofs.Parse Proofs.XyzText Proofs.ParseRecords
+  Proofs.ParseSections.
 From Molli Require Import Gen.XyzElements.
 Import ListNotations.
 Local Open Scope list_scope.
@@ -308,4 +309,99 @@ Proof.
   - reflexivity.
   - constructor.
   - vm_compute. lia.
+Qed.
+
+(* ---------------------------------------------------------------- section layouts (mol2): order and kind of the TRIPOS sections *)
+(* The theorems above speak about texts in the layout molli writes (MOLECULE, ATOM, BOND).  A mol2 text may carry any other
+   TRIPOS sections, anywhere; the reader skips the lines of those it does not know, and while it skips, the "unexpected
+   syntax" guard of its main loop -- the only thing that refuses a surplus line after a complete ATOM / BOND section -- is
+   off.  Below, the prefix `pre` of the text is ARBITRARY (any sections, any order, damaged or not): it only has to leave
+   the reader in its main loop (state v, whatever its skip flag). *)
+(* a TRIPOS record is dispatched the same whatever the skip flag, and every supported one leaves the flag cleared *)
+Theorem C10_tag_any_skip_mol2 : forall v b l, is_tag l ->
+  m2step true (MRun MMain (set_skip b v)) l = m2step true (MRun MMain v) l.
+Proof. exact tag_any_skip. Qed.
+Theorem C10_tag_clears_skip_mol2 : forall v l s m v', is_sec l s -> s <> SOther ->
+  m2step true (MRun MMain v) l = MRun m v' -> v_skip v' = false.
+Proof. exact tag_clears_skip. Qed.
+(* unsupported blocks (and blank / comment lines) in front of a TRIPOS record, or at the end of the text, carry nothing *)
+Theorem C10_unsupported_erasable_mol2 : forall pre X t rest v, m2run true m2init pre = MRun MMain v -> skippable X -> is_tag t ->
+  read_mol2 true (pre ++ X ++ t :: rest) = read_mol2 true (pre ++ t :: rest).
+Proof. exact unsupported_erasable. Qed.
+Theorem C10_unsupported_erasable_end_mol2 : forall pre X v, m2run true m2init pre = MRun MMain v -> skippable X ->
+  read_mol2 true (pre ++ X) = read_mol2 true pre.
+Proof. exact unsupported_erasable_end. Qed.
+Print Assumptions C10_unsupported_erasable_mol2.
+(* a complete ATOM / BOND section followed by a line that is not blank, not a comment and not a TRIPOS record: refused *)
+Theorem C10_surplus_after_atoms_mol2 : forall pre v h la als atoms x post,
+  m2run true m2init pre = MRun MMain v -> v_hdr v = Some h -> is_sec la SAtom ->
+  mh_natoms h = Z.of_nat (List.length atoms) -> Forall2 atom_line_of als atoms -> other_line x ->
+  exists e, read_mol2 true (pre ++ la :: als ++ x :: post) = Err e.
+Proof. exact surplus_after_atoms. Qed.
+Print Assumptions C10_surplus_after_atoms_mol2.
+Theorem C10_surplus_after_bonds_mol2 : forall pre v h lb bls bonds x post,
+  m2run true m2init pre = MRun MMain v -> v_hdr v = Some h -> is_sec lb SBond ->
+  mh_nbonds h = Some (Z.of_nat (List.length bonds)) -> Forall2 bond_line_of bls bonds -> other_line x ->
+  exists e, read_mol2 true (pre ++ lb :: bls ++ x :: post) = Err e.
+Proof. exact surplus_after_bonds. Qed.
+Print Assumptions C10_surplus_after_bonds_mol2.
+(* more record lines than the header declares / one record duplicated: refused, never "first n records, rest dropped" *)
+Theorem C10_too_many_atom_records_mol2 : forall pre v h la als atoms n post,
+  m2run true m2init pre = MRun MMain v -> v_hdr v = Some h -> is_sec la SAtom ->
+  mh_natoms h = Z.of_nat n -> Forall2 atom_line_of als atoms -> Forall other_line als -> (n < List.length als)%nat ->
+  exists e, read_mol2 true (pre ++ la :: als ++ post) = Err e.
+Proof. exact too_many_atom_records. Qed.
+Theorem C10_too_many_bond_records_mol2 : forall pre v h lb bls bonds n post,
+  m2run true m2init pre = MRun MMain v -> v_hdr v = Some h -> is_sec lb SBond ->
+  mh_nbonds h = Some (Z.of_nat n) -> Forall2 bond_line_of bls bonds -> Forall other_line bls -> (n < List.length bls)%nat ->
+  exists e, read_mol2 true (pre ++ lb :: bls ++ post) = Err e.
+Proof. exact too_many_bond_records. Qed.
+Theorem C10_dup_atom_record_sectioned_mol2 : forall pre v h la als atoms j post,
+  m2run true m2init pre = MRun MMain v -> v_hdr v = Some h -> is_sec la SAtom ->
+  mh_natoms h = Z.of_nat (List.length atoms) -> Forall2 atom_line_of als atoms -> Forall other_line als ->
+  (j < List.length als)%nat ->
+  exists e, read_mol2 true (pre ++ la :: dup_nth j als ++ post) = Err e.
+Proof. exact dup_atom_record. Qed.
+Print Assumptions C10_dup_atom_record_sectioned_mol2.
+Theorem C10_dup_bond_record_sectioned_mol2 : forall pre v h lb bls bonds j post,
+  m2run true m2init pre = MRun MMain v -> v_hdr v = Some h -> is_sec lb SBond ->
+  mh_nbonds h = Some (Z.of_nat (List.length bonds)) -> Forall2 bond_line_of bls bonds -> Forall other_line bls ->
+  (j < List.length bls)%nat ->
+  exists e, read_mol2 true (pre ++ lb :: dup_nth j bls ++ post) = Err e.
+Proof. exact dup_bond_record. Qed.
+Print Assumptions C10_dup_bond_record_sectioned_mol2.
+
+(* the hypotheses are satisfiable with the skip state ENTERED: a molecule whose header is followed by an unsupported COMMENT
+   block leaves the reader in its main loop with the flag set; its ATOM section with either record duplicated is refused,
+   whatever follows; and the block in front of the ATOM record can be erased *)
+Definition ex_sect_pre : list str := map s2l
+  ["@<TRIPOS>MOLECULE"; "two"; "2 1 0 0 0"; "SMALL"; "USER_CHARGES"; ""; "@<TRIPOS>COMMENT"; "written by another program"]%string.
+Definition ex_sect_la : str := s2l "@<TRIPOS>ATOM".
+Definition ex_sect_atoms : list str := map s2l
+  ["     1 C       0.000000     0.000000     0.000000 C          1 UNL1 0.000";
+   "     2 C       1.000000     0.000000     0.000000 C          1 UNL1 0.000"]%string.
+Example C10_sectioned_nonvacuous :
+  (exists v h, m2run true m2init ex_sect_pre = MRun MMain v /\ v_skip v = true /\ v_hdr v = Some h /\ mh_natoms h = 2%Z) /\
+  (forall j post, (j < 2)%nat -> exists e, read_mol2 true (ex_sect_pre ++ ex_sect_la :: dup_nth j ex_sect_atoms ++ post) = Err e) /\
+  (forall rest, read_mol2 true (firstn 6 ex_sect_pre ++ skipn 6 ex_sect_pre ++ ex_sect_la :: rest)
+                = read_mol2 true (firstn 6 ex_sect_pre ++ ex_sect_la :: rest)).
+Proof.
+  split; [|split].
+  - do 2 eexists. repeat split; vm_compute; reflexivity.
+  - intros j post Hj.
+    eapply C10_dup_atom_record_sectioned_mol2 with (atoms := [_; _]).
+    + vm_compute. reflexivity.
+    + reflexivity.
+    + do 2 eexists. repeat split; vm_compute; reflexivity.
+    + reflexivity.
+    + constructor; [split; [reflexivity|vm_compute; lia]|constructor; [split; [reflexivity|vm_compute; lia]|constructor]].
+    + repeat (constructor; [do 2 eexists; repeat split; vm_compute; reflexivity|]). constructor.
+    + exact Hj.
+  - intros rest. eapply C10_unsupported_erasable_mol2.
+    + vm_compute. reflexivity.
+    + cbn [skipn ex_sect_pre map]. apply (sk_sec _ [_] []).
+      * do 2 eexists. repeat split; vm_compute; reflexivity.
+      * constructor; [vm_compute; reflexivity|constructor].
+      * constructor.
+    + do 2 eexists. split; vm_compute; reflexivity.
 Qed.
